@@ -159,6 +159,8 @@ def generate(rng, tier='quick', stack=None, focus='general', **kw):
                      for _ in range(rng.randint(1, 2))}
     if rng.random() < 0.02 and m in ('echo', 'poke', 'hi', 'relay'):
       op['badarg'] = True          # an argument the Thrift codec cannot serialise: fails before the wire
+    elif rng.random() < 0.02 and scn['net']['chunk'] != 'bytes':
+      op['payload'] = 'L' * rng.choice([5000, 9000])     # larger than one send() takes
     ops.append(op)
   scn['ops'] = ops
   end = t
